@@ -103,6 +103,7 @@ class _Unordered:
         self.next_dispatch = 0
         self.running: List[int] = []
         self.completed: List[int] = []
+        State.log.append(len(self.items))   # stage size, for callers that build explicit completion orders
         self._fill()
 
     def _fill(self):
